@@ -22,6 +22,32 @@ def updates_of(fn):
     return out
 
 
+def path_must_after(fn, eid, pred):
+    """True if on every path from element `eid` to the function exit some element satisfying pred occurs
+    (pred may also hold before eid in the same block: only later elements count)."""
+    pos = fn.block_of().get(eid)
+    if not pos:
+        return False
+    b0, idx0 = pos
+    elems = fn.blocks[b0]["elems"]
+    for el in elems[idx0 + 1:]:
+        if isinstance(el, int) and pred(el):
+            return True
+    # DFS over successors avoiding blocks that contain a satisfying element; reaching exit means a path without it
+    has = {b: any(isinstance(el, int) and pred(el) for el in blk["elems"]) for b, blk in fn.blocks.items()}
+    seen = set()
+    stack = list(fn.succs(b0))
+    while stack:
+        b = stack.pop()
+        if b in seen or has.get(b):
+            continue
+        seen.add(b)
+        if b == fn.exit:
+            return False
+        stack.extend(fn.succs(b))
+    return True
+
+
 def strip_root(p):
     # this._pool.total_area_used[] / pool.total_area_used[] -> total_area_used[]
     return p.split(".")[-1]
@@ -220,6 +246,52 @@ def run(chk):
                 chk.ob(R4, "%s|%s" % (name, var), bad is None, loc=fn.loc(bad or i),
                        detail="`%s` from tree.get() is dereferenced on a path where it may be null" % var)
     chk.floor(R4 + ":gets", nget, 2)
+
+    # ---------------------------------------------------------------- C09.b'' sentinel discipline
+    R3b = "R-SENTINEL-PAIR"
+    chk.rule(R3b, "a function that clears a range of used bits also clears a stop bit (the old sentinel) on every path, and one that "
+                  "fills a range of used bits sets a stop bit: used/stop vectors are always updated together")
+    npair = 0
+    for name, fn in sorted(fns.items()):
+        def kind_of(x):
+            if x["k"] not in ("call", "mcall") or not x.get("args"):
+                return None
+            a0 = fn.text(x["args"][0])
+            cn = x.get("cn")
+            if cn == "bit_vector_clear" and "_used_bit_vector" in a0:
+                return "clear-used"
+            if cn == "bit_vector_fill" and "_used_bit_vector" in a0:
+                return "fill-used"
+            if cn == "bit_vector_set_bit" and "_stop_bit_vector" in a0 and len(x["args"]) >= 3:
+                v = fn.e(fn.strip(x["args"][2]))
+                if v is not None and "cv" in v:
+                    return "stop-set" if v["cv"] else "stop-clear"
+            return None
+        kinds = {i: kind_of(x) for i, x in fn.ex.items()}
+        if not any(k in ("clear-used", "fill-used") for k in kinds.values()):
+            continue
+
+        def elem_fx(eid, x):
+            k = kinds.get(eid)
+            return (((k,),), ()) if k else None
+        m = Must(fn, elem_fx, None)
+        st = m.IN.get(fn.exit) or frozenset()
+        for need, have in (("clear-used", "stop-clear"), ("fill-used", "stop-set")):
+            if (need,) in st or any(k == need for k in kinds.values()):
+                npair += 1
+                ok = ((need,) not in st) or ((have,) in st)
+                # when the range update is conditional, require the sentinel update wherever the range update happened
+                if (need,) not in st:
+                    ok = True
+                    for i, k in kinds.items():
+                        if k == need:
+                            after = Must(fn, lambda e, x, i=i: (((kinds.get(e),),), ()) if kinds.get(e) == have else None, None)
+                            # sentinel update must happen on all paths from this call to exit: check facts at exit restricted to paths through i
+                            ok = ok and path_must_after(fn, i, lambda e: kinds.get(e) == have)
+                chk.ob(R3b, "%s|%s->%s" % (name, need, have), ok, loc="%s:%d" % (UNIT, fn.line),
+                       detail="%s updates the used-bit range (%s) without the matching stop-bit update (%s) on every path" % (name, need, have),
+                       key="sentinel|%s|%s" % (name, need))
+    chk.floor(R3b + ":functions", npair, 3)
 
     # ---------------------------------------------------------------- C09.c initialised flag
     R5 = "R-INIT-FLAG"
